@@ -167,6 +167,32 @@ func checkViews(t failer, upper, lower uint64) {
 		}
 	}
 
+	// constructed values are independent: decoding another value into one result
+	// of a constructor (a used receiver, as above) must not change what the same
+	// constructor input, or any other view, gives afterwards
+	for _, mk := range []func() (*scale.Uint128, error){
+		func() (*scale.Uint128, error) { return scale.NewUint128(toBig(upper, lower)) },
+		func() (*scale.Uint128, error) { return scale.NewUint128(append([]byte{}, le...)) },
+		func() (*scale.Uint128, error) { return scale.NewUint128(append([]byte{}, be...), binary.BigEndian) },
+	} {
+		first, err := mk()
+		if err != nil {
+			t.Fatalf("constructor: %v (%s)", err, ctx)
+		}
+		other := "170141183460469231731687303715884105729" // 2^127+1
+		if err := json.Unmarshal([]byte(other), first); err != nil || first.String() != other {
+			t.Fatalf("json.Unmarshal(%s) into a constructed Uint128 = %s, %v (%s)", other, show(first), err, ctx)
+		}
+		second, err := mk()
+		if err != nil || !eq(second, upper, lower) || second.String() != dec {
+			t.Fatalf("constructor after a previous result was overwritten with %s = %s, %v; results share storage (%s)", other, show(second), err, ctx)
+		}
+		var viaJSON scale.Uint128
+		if err := json.Unmarshal([]byte(dec), &viaJSON); err != nil || !eq(&viaJSON, upper, lower) {
+			t.Fatalf("json.Unmarshal(%s) after a constructed value was overwritten = %s, %v (%s)", dec, show(&viaJSON), err, ctx)
+		}
+	}
+
 	// SCALE form: u128 = 16 bytes little endian
 	enc, err := scale.Marshal(u)
 	if err != nil || !bytes.Equal(enc, full) {
